@@ -444,7 +444,7 @@ def corpus():
 
 
 def check(run: Run, lean: dict) -> int:
-    n = 2500 if run.tier == "quick" else 60000
+    n = run.budget(2500, 60000)
     run.extra["rule"] = (
         "generated documents (namespaces, mixed content, comments, PIs, attributes) x random context node x expressions from "
         "the supported grammar (all axes, abbreviations, name/wildcard/prefixed/type tests, stacked predicates with "
